@@ -25,8 +25,15 @@ def setup(ctx):
 
 def gen_case(ctx, i):
     rng = ctx.rng
-    content = C.gen_content(rng, p_data=0.3)
-    case = {"content": content, "queries": cc.standard_queries(rng, content), "decl_seed": rng.randrange(1 << 30)}
+    content = C.gen_content(rng, p_data=0.3, p_readouts=0.5)
+    case = {"content": content, "queries": cc.standard_queries(rng, content, flags=True),
+            "decl_seed": rng.randrange(1 << 30)}
+    if content.get("readouts") and len(content["readouts"]) >= 2 and rng.random() < 0.15:
+        # F-C01-3 stratum: the first readout also names the LAST one (declared after it)
+        ro = content["readouts"]
+        ro[0][1] = {"args": ro[0][1]["args"] + [ro[-1][0]],
+                    "e": ["+", ro[0][1]["e"], ["a", len(ro[0][1]["args"])]]}
+        case["later_readout"] = True
     if rng.random() < 0.5:
         # ask, edit values / function bodies / stoichiometry through the API, ask again
         case["edit"] = cc.gen_edit(rng, content)
@@ -49,7 +56,11 @@ def judge_case(ctx, case, R, M, S):
         Ri, Si, Mi = R[i], S[i], None if M is None else M[i]
         if i >= nq:  # a sub-case replays both rounds; compare both
             Ri, Si, Mi = [R[i - nq], R[i]], [S[i - nq], S[i]], None if M is None else [M[i - nq], M[i]]
-        ctx.judge(sub, Ri, Si, Mi, what=f"query {q[0]}" + (" after edits" if i >= nq else ""))
+        fid = None
+        if case.get("later_readout") and q[0] in ("argsf", "argsftc") and q[-1][8]:
+            fid = "F-C01-3"
+            sub["later_readout"] = True
+        ctx.judge(sub, Ri, Si, Mi, finding=fid, what=f"query {q[0]}" + (" after edits" if i >= nq else ""))
     # every way of asking returns the same numbers (rhs vs call; fluxes vs args)
     by = {}
     for i, q in enumerate(case["queries"]):
